@@ -605,3 +605,8 @@ def _big_share_family(ck, rng, case, ci):
 # 11. mutable.py _enumerate_leases: stops at the first empty slot (seeded C25-4; cancel leaves a hole, leases behind it
 #     vanish / get duplicated / cannot be renewed)                                   CAUGHT (lease-lost-after-cancel)
 #     -- was MISSED while cancel disagreements were only an observation; cancel is now a judged step.
+# 12. immutable.py ShareFile.__init__: saturated 32-bit data-length field trusted (`< 2**32 - 1` -> `< 2**32`, seeded
+#     C25-8): for shares of allocated size >= 2**32 the lease area is looked for inside the data
+#                                                     CAUGHT (lease-secret-match; big-share family, sizes around 2**32)
+#     -- was MISSED while every share was small; _big_share_family() now runs sparse shares of 2**32-2 .. 2**33 bytes
+#        (v1 and v2) through the lease oracle (tail-only parser S.ImmutableTail, files unlinked afterwards).
